@@ -2006,6 +2006,11 @@ func (t *tScreen) UnregisterRuneFallback(orig rune) {
 
 func (t *tScreen) CanDisplay(r rune, checkFallbacks bool) bool {
 
+	// the encoder is stateful and shared with drawing, and the
+	// fallback table can be changed at any time
+	t.Lock()
+	defer t.Unlock()
+
 	if enc := t.encoder; enc != nil {
 		nb := make([]byte, 6)
 		ob := make([]byte, 6)
@@ -2043,11 +2048,13 @@ func (t *tScreen) HasKey(k Key) bool {
 }
 
 func (t *tScreen) SetSize(w, h int) {
+	t.Lock()
 	if t.setWinSize != "" {
 		t.TPuts(t.ti.TParm(t.setWinSize, w, h))
 	}
 	t.cells.Invalidate()
 	t.resize()
+	t.Unlock()
 }
 
 func (t *tScreen) Resize(int, int, int, int) {}
@@ -2186,7 +2193,9 @@ func (t *tScreen) disengage() {
 
 // Beep emits a beep to the terminal.
 func (t *tScreen) Beep() error {
+	t.Lock()
 	t.writeString(string(byte(7)))
+	t.Unlock()
 	return nil
 }
 
